@@ -19,6 +19,18 @@ CLAIMED = {
 }
 
 CLAIMED.update({
+    "C01": dict(
+        category="proof",
+        text="Theorems for every executor that is a function of (node, arguments), every acyclic gate-free graph with unique outputs and "
+             "every input: the dataflow equations (Sol: argument precedence upstream output > run-time > bound > default; unsatisfiable nodes "
+             "contribute nothing) have exactly one solution, and every COMPLETED run of either runner ends in it; a node has run iff its "
+             "inputs can be satisfied. Proved through an invariant over all reachable states (versions, execution records, provenance). "
+             "Tied to /repo by runs against the dependency-order evaluator SpecDenote.denote and the engine model.",
+        design_ref="DESIGN.md section 5 C01",
+        note="partial: termination of a DAG within max_iterations (hence 'exactly once') is not proved; graphs with wait_for are outside the "
+             "theorem (known finding F-j shows the full statement is false there). Model: Engine.v; executor contract: WF in C01Proofs.v.",
+        technique="Coq proof (invariant over reachable states + uniqueness of the dataflow fix-point by induction on rank) + spec oracle",
+    ),
     "C02": dict(
         category="proof",
         text="Theorems for every executor, graph (cyclic and gated included) and step: an asynchronous superstep is invariant under any "
